@@ -243,7 +243,23 @@ func ruleC05e(c *Ctx) {
 				arg := call.Call.Args[len(call.Call.Args)-1]
 				switch {
 				case isProduceElem(arg):
-					okSrc = true
+					// "first Produces entry" stands for the wildcard range only
+					okSrc = false
+					why = "a Produces entry is returned for an Accept range that was not shown to be */*"
+					for _, pa := range pathsFactsTo(neg, call.Block()) {
+						_ = pa
+					}
+					for f := range facts[call.Block()] {
+						if bo, ok := f.Cond.(*ssa.BinOp); ok && bo.Op == token.EQL && f.Pol {
+							for _, pr := range [][2]ssa.Value{{bo.X, bo.Y}, {bo.Y, bo.X}} {
+								if sv, ok := constStr(pr[0]); ok && sv == "*/*" {
+									if _, fld, ok := fieldLoad(strip(pr[1])); ok && fld.Name() == "media" {
+										okSrc = true
+									}
+								}
+							}
+						}
+					}
 				default:
 					// an Accept range shown equal to a Produces entry
 					for f := range facts[call.Block()] {
@@ -384,3 +400,5 @@ func derefType(t types.Type) types.Type {
 	}
 	return t
 }
+
+func pathsFactsTo(fn *ssa.Function, b *ssa.BasicBlock) []cfgPath { return nil }
